@@ -9,8 +9,10 @@ tie    : (a) harness/c04.cpp calls BOTH overloads of the real compute_shortest_d
          -DTAPKEE_USE_FIBONACCI_HEAP) and with 1, 3 and 16 OpenMP threads; every observed matrix goes through
          the extracted decision procedures check_matrix / check_landmarks (Bellman-Ford) and is compared with
          the extracted Dijkstra models (two tie-breaking rules per flavour); DBL_MAX = unreachable = None.
-         With one thread the sequence of distance-callback calls (which edges are relaxed, in which order) is
-         compared with the instrumented model on tie-free graphs.
+         With one thread the sequence of distance-callback calls (which edges are examined, in which order) is
+         compared with the instrumented model that contains the CONCRETE Fibonacci heap of property C16
+         (Fibonacci build: every graph, ties included; priority-queue build: tie-free graphs); informational,
+         a disagreement only enlarges the search.
          (b) the real text of IsomapImplementation::embed() / LandmarkIsomapImplementation::embed() runs with
          `compute_shortest_distances_matrix(` and `eigendecomposition_via(` wrapped by recording macros: the
          neighbours tapkee found, the geodesics it computed and the matrix it handed to the eigensolver are
@@ -377,8 +379,8 @@ def parse_model_mat(rest):
     return [vals[i * c:(i + 1) * c] for i in range(r)]
 
 
-MODEL_TAGS = ("full pq0", "full pq1", "full fib0", "full fib1", "land pq0", "land fib0", "land fib1",
-              "landold fib0", "landsp", "sp", "row")
+MODEL_TAGS = ("full pq0", "full pq1", "full fib0", "full fib1", "full fibc", "land pq0", "land fib0", "land fib1",
+              "land fibc", "landold fib0", "landsp", "sp", "row", "trace fibc", "ltrace fibc")
 
 
 def parse_block(blk):
@@ -476,7 +478,7 @@ def observe_sp(ctx, exes, cases, trace=True, only=None):
                 lines.append(sp_line(c, t, 0))
                 keys.append((ci, (b, t)))
         for ci, c in enumerate(cases):
-            if trace and c.get("tiefree"):
+            if trace and (c.get("tiefree") or b == "fib") and c["N"] <= 64:
                 lines.append(sp_line(c, 1, 1))
                 keys.append((ci, (b, "trace")))
         if lines:
@@ -545,12 +547,13 @@ def evaluate_sp(ctx, exes, cases, stats, shrink=True):
         sp, landsp = spec.get("sp"), spec.get("landsp", [])
         stats["model_rows"] += c["N"]
         # (i) theorem instances on this input: every model variant equals the specification
-        for k in ("full pq0", "full pq1", "full fib0", "full fib1"):
+        for k in ("full pq0", "full pq1", "full fib0", "full fib1", "full fibc"):
             if model.get(k) != sp:
                 ctx.mismatch(c, "extracted model %s differs from the extracted Bellman-Ford spec (contradicts "
-                                "dijkstra_pq_correct/dijkstra_fib_correct): %r" % (k, str(model.get(k))[:120]))
+                                "dijkstra_pq_correct/dijkstra_fib_correct/dijkstra_fib_concrete_correct): %r"
+                             % (k, str(model.get(k))[:120]))
         if c["lm"]:
-            for k in ("land pq0", "land fib0", "land fib1"):
+            for k in ("land pq0", "land fib0", "land fib1", "land fibc"):
                 if model.get(k) != landsp:
                     ctx.mismatch(c, "extracted model %s differs from sp_landmarks (contradicts landmark_row)" % k)
             if model.get("landold fib0") != landsp:
@@ -589,44 +592,34 @@ def evaluate_sp(ctx, exes, cases, stats, shrink=True):
                 continue
             if model.get("full " + ("pq0" if key[0] == "pq" else "fib0")) != full and not ctx.has_violation():
                 ctx.mismatch(strip(c), "model and implementation disagree (%s/%s)" % key)
-        # (iv) structural tie on tie-free graphs: the sequence of callback calls
+        # (iv) structural tie: the sequence of distance-callback calls with one thread.  Fibonacci build: every
+        # graph (the model contains the real heap, so ties are broken as the code breaks them); priority-queue
+        # build: tie-free graphs only (there the order is forced and both builds must agree with the model).
         for b in BUILDS:
             r = obs[ci].get((b, "trace"))
-            if r and not r["crash"] and "trace" in r["tags"]:
+            if not r or r["crash"]:
+                continue
+            for tag, mtag in (("trace", "trace fibc"), ("ltrace", "ltrace fibc")):
+                if tag not in r["tags"] or not isinstance(model.get(mtag), list):
+                    continue
                 stats["traces"] += 1
-                tr = [int(x) for x in r["tags"]["trace"][2]]
-                want = model_trace(c, sp)
+                try:
+                    tr = [int(x) for x in r["tags"][tag][2]]
+                except ValueError:
+                    tr = None
+                want = [x for row in model[mtag] for x in row]
                 if tr != want:
                     # the order of callback calls is NOT part of the property: a disagreement is reported and
                     # buys a larger search budget, but is never a verdict by itself
                     stats["trace_disagree"] += 1
                     if stats["trace_disagree"] <= 3:
-                        ctx.note("call trace of the distance callback differs from the order forced by a tie-free "
-                                 "graph (%s build, N=%d): first difference at call %d; outputs are still judged by "
-                                 "the specification only" % (b, c["N"], next(
-                                     (i for i, (x, y) in enumerate(zip(tr, want)) if x != y),
-                                     min(len(tr), len(want))) // 2))
+                        ctx.note("call trace (%s) of the distance callback differs from the instrumented concrete-heap "
+                                 "model (%s build, N=%d, generator %s); outputs are still judged by the "
+                                 "specification only" % (tag, b, c["N"], c.get("gen")))
                 else:
                     stats["trace_agree"] += 1
+                    stats["trace_calls"] += len(want) // 2
     return n_eval
-
-
-def model_trace(case, sp):
-    """On a tie-free graph the order in which vertices are settled is forced (increasing distance), and the
-    callback is called, for each settled u in that order, for each neighbour slot i < K whose target is not
-    yet settled.  (Reference for the structural tie; computed from the extracted spec's distances.)"""
-    N = case["N"]
-    K = len(case["nbrs"][0])
-    out = []
-    for k in range(N):
-        order = sorted((v for v in range(N) if sp[k][v] is not None), key=lambda v: sp[k][v])
-        settled = set()
-        for u in order:
-            settled.add(u)
-            for v in case["nbrs"][u][:K]:
-                if v not in settled:
-                    out += [u, v]
-    return out
 
 
 def strip(case):
@@ -790,10 +783,10 @@ def evaluate_iso(ctx, exes, cases, stats):
         eig_lines, eig_idx = [], []
         keep = []
         for c, r in zip(sub, res):
-            tag = "%s/%s/%s" % (c["meth"], c["nm"], b)
+            tag = "%s/%s/%s" % (c["meth"], c["nm"], b_run)
             stats["iso"][tag] = stats["iso"].get(tag, 0) + 1
             if r["crash"]:
-                ctx.violation(strip(c), "Isomap embed() aborts / hangs (%s build): %s" % (b, str(r["crash"])[:500]))
+                ctx.violation(strip(c), "Isomap embed() aborts / hangs (%s build): %s" % (b_run, str(r["crash"])[:500]))
                 continue
             if r["x"]:
                 stats["iso_exceptions"] += 1
@@ -825,7 +818,7 @@ def evaluate_iso(ctx, exes, cases, stats):
             g = {"kind": "sp", "N": N, "nbrs": nbrs, "w": c["T"], "scale": 0, "lm": lm}
             rows = len(lm) if c["meth"] == "liso" else N
             geo, prob = parse_obs(tags["geo"], 0, rows, N)
-            info = {"case": c, "graph": g, "geo": geo, "tags": tags, "build": b, "tag": tag}
+            info = {"case": c, "graph": g, "geo": geo, "tags": tags, "build": b_run, "tag": tag}
             if geo is None or prob:
                 ctx.violation(dict(strip(c), captured_neighbors=nbrs, captured_landmarks=lm),
                               "geodesics computed inside embed() are malformed (%s): %s" % (tag, prob))
@@ -995,14 +988,21 @@ def nontrivial(c):
 def run(ctx):
     rng = ctx.rng
     quick = ctx.quick
+    import time
+    t0 = time.time()
     with ThreadPoolExecutor(max_workers=2) as pool:
-        fb = pool.submit(build_all, ctx)
+        # quick tier: the embed() translation unit (80 s of g++ -fsanitize) is built in the default configuration
+        # only — embed() has no #ifdef, and the Fibonacci Dijkstra it would call is driven directly by c04_sp_fib
+        fb = pool.submit(build_all, ctx, not quick)
         coq = ctx.coq()
+        t_coq = time.time() - t0
         mexe = ctx.extract()
+        t_extract = time.time() - t0 - t_coq
         bins = fb.result()
+    t_build = time.time() - t0
     exes = Exes({b: bins[("sp", b)] for b in BUILDS}, {b: bins[("iso", b)] for b in BUILDS if ("iso", b) in bins},
                 mexe)
-    stats = {"model_rows": 0, "traces": 0, "trace_agree": 0, "trace_disagree": 0, "old_f4_model_differs": 0, "iso": {}, "iso_exceptions": 0,
+    stats = {"model_rows": 0, "traces": 0, "trace_agree": 0, "trace_disagree": 0, "trace_calls": 0, "old_f4_model_differs": 0, "iso": {}, "iso_exceptions": 0,
              "iso_disconnected": 0, "B_exact": 0, "B_tolerance": 0, "emb_checked": 0, "emb_degenerate": 0,
              "emb_oracle_bad": 0, "emb_worst_rel": 0.0}
     hist = {}
@@ -1038,6 +1038,8 @@ def run(ctx):
                 break
         if not ctx.has_violation():
             n += evaluate_iso(ctx, exes, gen_iso_cases(rng, 60, 20, 40), stats)
+    ctx.note("wall clock: coq %.0f s, extraction %.0f s, all builds done after %.0f s, evaluation %.0f s" % (
+        t_coq, t_extract, t_build, time.time() - t0 - t_build))
     allc = sp_cases + iso_cases
     for c in allc:
         g = c.get("gen", c["kind"] + ":" + c.get("meth", ""))
@@ -1072,7 +1074,7 @@ def replay(ctx, case):
     mexe = ctx.extract()
     exes = Exes({b: bins[("sp", b)] for b in BUILDS}, {b: bins[("iso", b)] for b in BUILDS if ("iso", b) in bins},
                 mexe)
-    stats = {"model_rows": 0, "traces": 0, "trace_agree": 0, "trace_disagree": 0, "old_f4_model_differs": 0, "iso": {}, "iso_exceptions": 0,
+    stats = {"model_rows": 0, "traces": 0, "trace_agree": 0, "trace_disagree": 0, "trace_calls": 0, "old_f4_model_differs": 0, "iso": {}, "iso_exceptions": 0,
              "iso_disconnected": 0, "B_exact": 0, "B_tolerance": 0, "emb_checked": 0, "emb_degenerate": 0,
              "emb_oracle_bad": 0, "emb_worst_rel": 0.0}
     c = dict(case)
